@@ -44,7 +44,7 @@ struct PeerParams
   uint64_t abortAfter = 0;
   size_t reserve = 0;
   double writePauseProb = 0.05; // fraction of reverse chunks followed by a short pause
-  uint32_t maxWriteChunk = 20000;
+  uint32_t maxWriteChunk = 20000, minWriteChunk = 0; // minWriteChunk > 0: every reverse write (= TLS record) is at least that large
 };
 
 struct Peer
@@ -60,6 +60,8 @@ struct Peer
   std::atomic<uint64_t> rxBytes{0}, parsed{0}, wrote{0}, pausesTaken{0}, reads{0};
   std::atomic<uint64_t> idleSinceNs{0};
   std::atomic<int> pendingAtIdle{-1}; // FIONREAD (+SSL_pending) observed when a read found nothing
+  std::atomic<int> sendQueueAtIdle{-1}; // TIOCOUTQ of the peer socket when an iteration made no progress: bytes written but not yet
+                                        // delivered to and acknowledged by the engine's kernel socket
   std::atomic<bool> eof{false}, ioError{false}, protoError{false}, handshakeDone{false}, aborted{false}, halfClosed{false};
   std::atomic<bool> drain{false}, holdReads{false}, done{false}, writeGone{false};
   std::atomic<int> cmd{0}; // 0 run, 1 write tail + half-close then read to EOF, 2 read to EOF, 3 quit now
@@ -287,7 +289,7 @@ struct Peer
       {
         uint64_t left = revLeft > 0 ? revLeft : tailLeft;
         // a write that would block must be retried with the same bytes and length (TLS record already started)
-        size_t n = pendingW ? pendingW : size_t(std::min<uint64_t>(left, 1 + rng.below(rng.chance(0.3) ? 64 : P.maxWriteChunk)));
+        size_t n = pendingW ? pendingW : size_t(std::min<uint64_t>(left, P.minWriteChunk ? rng.range(P.minWriteChunk, std::max(P.minWriteChunk, P.maxWriteChunk)) : 1 + rng.below(rng.chance(0.3) ? 64 : P.maxWriteChunk)));
         fillRun(wb.data(), rk, wOff, n);
         int w = ioWrite(wb.data(), n);
         pendingW = w == 0 ? n : 0;
@@ -304,6 +306,7 @@ struct Peer
       if (eof.load()) break; // the other side closed: nothing more can arrive
       if (!progressed)
       {
+        { int oq = 0; if (ioctl(fd, TIOCOUTQ, &oq) == 0) sendQueueAtIdle = oq; }
         uint64_t now2 = vf::nowNs();
         int to = 20;
         bool rOn = !holdReads.load() && now2 >= nextReadAt;
